@@ -31,7 +31,7 @@ func genC16(tier string, seed int64) []Case {
 	}
 	nb, per, ns, pers := 8, 60, 8, 6
 	if tier == "thorough" {
-		nb, per, ns, pers = 32, 300, 32, 12
+		nb, per, ns, pers = 64, 300, 64, 12
 	}
 	for i := 0; i < nb; i++ {
 		add(c16Desc{Kind: "builder", N: per, Salt: fmt.Sprintf("%d-%d", seed, i)})
